@@ -60,6 +60,7 @@ type Violation struct {
 	Definite bool
 	Trail    []string
 	MapOrder int
+	Key      string // obligation site + classes: counterexamples with the same key are alternatives
 }
 
 type PathSummary struct {
@@ -105,7 +106,7 @@ type Explorer struct {
 	active    int
 	cond      *sync.Cond
 	paths     []PathSummary
-	viol      map[string]*Violation
+	viol      map[string][]*Violation
 	inconcl   []string
 	nPaths    int
 	stop      bool
@@ -128,6 +129,7 @@ type Worker struct {
 
 // Exec is the state of one path execution.
 type Exec struct {
+	partial []string // places where only one instance of a symbolic value was explored
 	W         *Worker
 	P         *Program
 	ts        *TermStore
@@ -554,10 +556,15 @@ func (ex *Exec) recordViolation(id string, m Model, definite bool) {
 	}
 	sort.Strings(v.Classes)
 	key := id + "|" + v.Pos + "|" + strings.Join(v.Classes, ",")
+	v.Key = key
 	E := ex.W.E
 	E.mu.Lock()
-	if _, ok := E.viol[key]; !ok {
-		E.viol[key] = v
+	// up to 8 counterexamples per site: the first that reproduces natively is
+	// the one reported (a model can sit in a corner where an abstraction of
+	// the executor, e.g. the structural CBOR snapshot, is stricter than the
+	// real bytes)
+	if len(E.viol[key]) < 8 {
+		E.viol[key] = append(E.viol[key], v)
 	}
 	E.mu.Unlock()
 }
@@ -644,6 +651,43 @@ func (ex *Exec) concretize(t *Term, lo, hi uint64) uint64 {
 	}
 }
 
+// concretizeOne fixes t to one feasible value and does NOT explore the others:
+// what follows on this path is one instance, not every input. The path is
+// marked partial; a check that met such a path without finding a violation
+// reports INCONCLUSIVE, never PASS.
+func (ex *Exec) concretizeOne(t *Term, why string) uint64 {
+	if t.IsConst() {
+		return t.K
+	}
+	ts := ex.ts
+	if len(ex.partial) < 4 {
+		ex.partial = append(ex.partial, why)
+	}
+	if ex.inPrefix() {
+		d := ex.prefix[ex.pos]
+		if d.K != decEq || d.H != t.SHash() {
+			ex.end(endInconclusive, "replay diverged from the recorded decision prefix at one-instance concretisation %d (internal error)", ex.pos)
+		}
+		ex.addConj(ts.Eq(t, ts.Const(t.W, d.V)))
+		ex.decisions = append(ex.decisions, d)
+		ex.pos++
+		return d.V
+	}
+	ex.leavePrefix()
+	if ex.model == nil {
+		r, m := ex.check(nil, true)
+		if r == Unsat {
+			ex.end(endInfeasible, "no value left in concretize")
+		}
+		ex.model = m
+	}
+	v := t.Eval(ex.model, map[*Term]uint64{})
+	ex.addConj(ts.Eq(t, ts.Const(t.W, v)))
+	ex.decisions = append(ex.decisions, Dec{K: decEq, V: v, H: t.SHash()})
+	ex.pos++
+	return v
+}
+
 // ---------------------------------------------------------------- exploration
 
 func (E *Explorer) enqueue(p []Dec) {
@@ -700,7 +744,7 @@ type ExploreResult struct {
 func (E *Explorer) Explore() *ExploreResult {
 	start := time.Now()
 	E.cond = sync.NewCond(&E.mu)
-	E.viol = make(map[string]*Violation)
+	E.viol = make(map[string][]*Violation)
 	E.funcSteps = make(map[string]int)
 	E.covers = make(map[string]int)
 	E.asserts = make(map[string]int)
@@ -769,7 +813,7 @@ func (E *Explorer) Explore() *ExploreResult {
 	}
 	sort.Strings(keys)
 	for _, k := range keys {
-		res.Violations = append(res.Violations, E.viol[k])
+		res.Violations = append(res.Violations, E.viol[k]...)
 	}
 	return res
 }
@@ -848,6 +892,11 @@ func (w *Worker) runPath(prefix []Dec) {
 	E.mu.Lock()
 	E.nPaths++
 	E.decisions += len(ex.decisions) - len(prefix)
+	if sum.End != endInconclusive && sum.End != endInfeasible && len(E.inconcl) < 50 {
+		for _, p := range ex.partial {
+			E.inconcl = append(E.inconcl, "only one instance explored: "+p)
+		}
+	}
 	if sum.End == endInconclusive {
 		if len(E.inconcl) < 50 {
 			E.inconcl = append(E.inconcl, sum.Msg)
